@@ -46,7 +46,7 @@ Profile profile_for(const std::string &c) {
     } else if (c == "C07") {
         set(p.w_driver, {{CTX, 40}, {REG, 20}, {LIFE, 24}, {MSG, 6}, {QUERY, 3}});
         set(p.w_script, {{CTX, 30}, {REG, 12}, {LIFE, 30}, {MSG, 8}});
-        p.mod_flag_bits = 1; p.src_kinds = 0; p.hooks_all = true;
+        p.mod_flag_bits = 1 | 2 | 4 | 16; p.src_kinds = 0; p.hooks_all = true;   // name dup, allow-replace, persist, deny-ctx
     } else if (c == "C08") {
         set(p.w_driver, {{LIFE, 12}, {MSG, 50}, {SUBS, 12}, {BATCH, 8}});
         set(p.w_script, {{LIFE, 10}, {MSG, 50}, {CTX, 10}, {BATCH, 6}, {STASH, 4}});
